@@ -217,6 +217,29 @@ def report_tie(ctx, cases, what):
     return len(real)
 
 
+def expect_cases(ctx, cases, what, limit=3):
+    """cases whose documents carry their own expectation (doc['expect'] in ACC / REJ): the program builds and answers as expected"""
+    nv = 0
+    for c in cases:
+        if not c.gen_ok or not c.build_ok:
+            if nv < limit:
+                ctx.violation("oracle", dict(c.replay_obj(), gen_err=c.gen_err, build_err=c.build_err), "%s (%s): generation failed or the output does not build: %s"
+                              % (what, c.fam, (c.gen_err or c.build_err)[:300]))
+            nv += 1
+            continue
+        ctx.cov["programs"] += 1
+        for di, d in enumerate(c.docs):
+            o = d.get("obs") or {}
+            ctx.count({"f": c.fam, "s": c.schema, "d": d["doc"]}, True, "%s/%s" % (what, c.fam))
+            if "expect" in d and o.get("v") != d["expect"]:
+                if nv < limit:
+                    ctx.violation("oracle", c.replay_obj(di), "%s (%s): document %s (%s at %s) should be %s, the generated code answers %s %s" % (
+                        what, c.fam, json.dumps(d["doc"])[:200], d.get("cls"), "/".join(map(str, d.get("path", ()))), d["expect"], o.get("v"), (o.get("err") or "")[:150]))
+                nv += 1
+                break
+    return nv
+
+
 def replay(ctx, path):
     obj = json.load(open(path))
     case = obj.get("case", obj.get("witness", {}))
